@@ -200,8 +200,14 @@ def check_decision_case(c):
     from formulae.transforms import BSpline
 
     p = c["par"]
+    derived_outside = False
     if not p["knots_inside"] and p["nk"] < 1:
-        return [], "skip"  # knots derived from the data are always inside the bounds
+        # no knots given: the knots are percentiles of the data, and they fall outside the boundary knots
+        # when an explicit bound lies inside the data range - possible only if df asks for an inner knot
+        n_inner = p["df"] - (p["degree"] + 1) + (0 if p["intercept"] else 1) if (p["df"] != -1 and p["df_is_int"] and p["degree_is_int"]) else 0
+        if p["nk"] == 0 or n_inner < 1:
+            return [], "skip"
+        derived_outside = True
     x = np.arange(10, dtype=float)
     kw = {}
     if p["df"] != -1:
@@ -217,6 +223,8 @@ def check_decision_case(c):
     kw["intercept"] = bool(p["intercept"])
     if not p["bounds_ok"]:
         kw["lower_bound"], kw["upper_bound"] = 9.0, 0.0
+    elif derived_outside:
+        kw["lower_bound"] = 8.5   # above every percentile knot of 0..9
     base = {"call": {k: (v if not isinstance(v, list) else v) for k, v in kw.items()}, "spec": c["abs"]}
     try:
         with warnings.catch_warnings():
